@@ -5,6 +5,7 @@ import (
 	"go/constant"
 	"go/token"
 	"go/types"
+	"os"
 	"sort"
 	"strings"
 
@@ -455,4 +456,331 @@ func ruleBypassKeepsBrackets(w *core.World, r *core.Report) {
 		return
 	}
 	r.Check(bad == "", cons, badPos, "%s", bad)
+}
+
+// ---------------------------------------------------------------- R19.20 on a cluster the checkpoint never shares a batch with the commands it covers
+
+// evalHyp evaluates a boolean along a path like Path.Eval and, where the path
+// knows nothing, under a hypothesis about some leaf values.
+func evalHyp(p *core.Path, v ssa.Value, hyp func(ssa.Value) (bool, bool), depth int) (bool, bool) {
+	v = p.Resolve(v)
+	if b, ok := core.ConstBool(v); ok {
+		return b, true
+	}
+	if b, ok := p.Eval(v); ok {
+		return b, true
+	}
+	if b, ok := hyp(core.Unwrap(v)); ok {
+		return b, true
+	}
+	if depth > 6 {
+		return false, false
+	}
+	switch x := v.(type) {
+	case *ssa.UnOp:
+		if x.Op == token.NOT {
+			if b, ok := evalHyp(p, x.X, hyp, depth+1); ok {
+				return !b, true
+			}
+		}
+	case *ssa.Phi:
+		have, val := false, false
+		for _, e := range x.Edges {
+			b, ok := evalHyp(p, e, hyp, depth+1)
+			if !ok || (have && b != val) {
+				return false, false
+			}
+			have, val = true, b
+		}
+		return val, have
+	}
+	return false, false
+}
+
+// ruleCheckpointAloneOnCluster: the batch sender puts the queued commands and
+// the checkpoint (`hset <cp> <runid>_offset N`) on one batcher and sends both
+// with one Exec. That is a transaction only where the batcher really wraps the
+// batch in MULTI/EXEC. A cluster batcher drops both brackets (a node refuses an
+// EXEC whose commands span slots), so there the batch is a plain pipeline: when
+// a node refuses one command (MOVED, ASK, OOM ...) it still executes everything
+// behind it in its input buffer, the checkpoint included. The sender reports
+// the restart, but the restarted replay reads a position behind the refused
+// command, which no node executes in any run (W39).
+//
+// Condition, for the synchronous sender (the pipelined mode dispatches later
+// batches before earlier replies are read and is outside this rule): every
+// attempt of the retry wrapper that may carry the checkpoint has ruled out a
+// cluster target, or directly follows an attempt without checkpoint that
+// succeeded - and a successful attempt leaves the queue empty, so that the
+// checkpoint travels alone, after every command it covers was acknowledged.
+func ruleCheckpointAloneOnCluster(w *core.World, r *core.Report) {
+	c := newSenderCtx(w, r)
+	if c == nil {
+		return
+	}
+	const consA = "sendFunc/checkpoint-alone-on-cluster"
+	const consB = "sendFuncOnce/success-empties-queue"
+	isKeyCall := func(v ssa.Value, method string) bool {
+		call, ok := core.Unwrap(v).(*ssa.Call)
+		return ok && strings.HasSuffix(core.ResolveCall(call).Name, "CheckpointInfo)."+method)
+	}
+	isClusterVal := func(v ssa.Value) bool {
+		call, ok := core.Unwrap(v).(*ssa.Call)
+		if !ok {
+			return false
+		}
+		n := core.ResolveCall(call).Name
+		return strings.HasSuffix(n, ".IsCluster") || strings.HasSuffix(n, ").IsCluster")
+	}
+	// the pipeline-mode flag: what the batchers are created with
+	var pipeCell *ssa.Alloc
+	var pipeVal ssa.Value
+	for _, s := range core.SitesNamed(c.once, false, "*Redis.NewBatcher") {
+		if a := s.Args(); len(a) == 1 {
+			v := core.Unwrap(a[0])
+			pipeVal = v
+			if ld, ok := v.(*ssa.UnOp); ok && ld.Op == token.MUL {
+				pipeCell = core.Cell(ld.X)
+			}
+		}
+	}
+	isPipeVal := func(v ssa.Value) bool {
+		v = core.Unwrap(v)
+		if pipeVal != nil && v == pipeVal {
+			return true
+		}
+		if ld, ok := v.(*ssa.UnOp); ok && ld.Op == token.MUL && pipeCell != nil && core.Cell(ld.X) == pipeCell {
+			return true
+		}
+		// the cell of a captured parameter is assigned once: a path reads it as the parameter
+		if pipeCell != nil {
+			if sts := core.CellStores(pipeCell); len(sts) == 1 && core.Unwrap(sts[0].Val) == v {
+				return true
+			}
+		}
+		return false
+	}
+
+	// (A1) can one batch of the batch sender carry queued commands and the checkpoint?
+	var offPuts, dataPuts, runs []core.Site
+	for _, s := range core.Sites(c.once, false) {
+		switch {
+		case strings.HasSuffix(s.Name, "CmdBatcher.Exec") || strings.HasSuffix(s.Name, "CmdBatcher.Dispatch"):
+			runs = append(runs, s)
+		case s.Method == "Put":
+			name, isConst := core.CmdName(s)
+			if !isConst {
+				dataPuts = append(dataPuts, s)
+				continue
+			}
+			if name != "hset" {
+				continue
+			}
+			if args, ok := core.CmdArgs(s); ok {
+				for _, a := range args {
+					if isKeyCall(a, "OffsetKey") {
+						offPuts = append(offPuts, s)
+					}
+				}
+			}
+		}
+	}
+	if len(offPuts) == 0 || len(dataPuts) == 0 {
+		r.Unresolved(consA, "the batch sender's Put of the queued commands or of the checkpoint offset was not found")
+		return
+	}
+	isQueueLen := func(v ssa.Value) bool {
+		ln, ok := core.Unwrap(v).(*ssa.Call)
+		if !ok || len(ln.Call.Args) != 1 {
+			return false
+		}
+		if b, isB := ln.Call.Value.(*ssa.Builtin); !isB || b.Name() != "len" {
+			return false
+		}
+		ld, ok := core.Unwrap(ln.Call.Args[0]).(*ssa.UnOp)
+		return ok && ld.Op == token.MUL && core.Cell(ld.X) == c.queue
+	}
+	mixes := false
+	for _, o := range offPuts {
+		for _, d := range dataPuts {
+			ro, rd := core.Unwrap(o.Recv()), core.Unwrap(d.Recv())
+			if ro != rd {
+				// two batchers: the one with the commands must have succeeded before the other is made
+				var dr []ssa.Value
+				for _, s := range runs {
+					if core.Unwrap(s.Recv()) == rd {
+						dr = append(dr, s.Value())
+					}
+				}
+				mk, isCall := ro.(*ssa.Call)
+				if !isCall || !afterSuccessfulRun(mk.Block(), dr) {
+					r.Undecided(consA, o.Pos(), "the checkpoint offset and the queued commands are put on different batcher values, and the batcher of the checkpoint is not created after the successful Exec of the other one: which of them is sent first, and whether the second waits for the first, cannot be told")
+					return
+				}
+				continue
+			}
+			guarded := false
+			for _, f := range core.FactsAt(o.Instr.Block()) {
+				if !f.Val && isClusterVal(f.Cond) {
+					guarded = true
+				}
+				if cm, ok := core.AsCmp(f.Cond, f.Val); ok && isQueueLen(cm.X) {
+					if k, isK := core.ConstInt(cm.Y); isK && ((cm.Op == token.EQL && k == 0) || (cm.Op == token.LEQ && k == 0) || (cm.Op == token.LSS && k == 1)) {
+						guarded = true
+					}
+				}
+			}
+			if !guarded {
+				mixes = true
+			}
+		}
+	}
+
+	// (B) a successful attempt leaves the queue empty
+	badB := ""
+	var badBPos token.Pos
+	nB := 0
+	okEnumB := core.EnumPaths(c.once.Blocks[0], 0, 200000, func(p *core.Path) {
+		ret, ok := p.End.(*ssa.Return)
+		if !ok || badB != "" || len(ret.Results) == 0 {
+			return
+		}
+		if !core.IsNilConst(p.Resolve(ret.Results[len(ret.Results)-1])) {
+			return
+		}
+		nB++
+		for _, in := range p.Instrs {
+			if st, isSt := in.(*ssa.Store); isSt && core.Cell(st.Addr) == c.queue {
+				return // the forms a reset may have are R01.2's
+			}
+		}
+		isBatchLen := func(v ssa.Value) bool {
+			call, ok := core.Unwrap(v).(*ssa.Call)
+			return ok && strings.HasSuffix(core.ResolveCall(call).Name, "CmdBatcher.Len")
+		}
+		empty := func(v ssa.Value) bool { return isQueueLen(v) || isBatchLen(v) }
+		if p.Holds(token.EQL, empty, isConstInt(0)) || p.Holds(token.LEQ, empty, isConstInt(0)) || p.Holds(token.LSS, empty, isConstInt(1)) {
+			return
+		}
+		badB, badBPos = "the batch sender returns nil on a path that neither resets the queue nor has found the queue (or the batch) empty", ret.Pos()
+	})
+	if !okEnumB {
+		r.Undecided(consB, c.once.Pos(), "too many paths through the batch sender")
+	} else {
+		r.Check(badB == "" && nB > 0, consB, badBPos, "%s: the retry wrapper relies on 'the attempt succeeded, so nothing is queued any more' when it sends the checkpoint in a batch of its own (nil-returning paths=%d)", badB, nB)
+	}
+
+	if !mixes {
+		r.OK(consA, c.once.Pos(), "no batch of the batch sender can carry both queued commands and the checkpoint unless a cluster target is ruled out")
+		return
+	}
+
+	// (A2) every attempt that may carry the checkpoint
+	for _, g := range core.DeepFuncs(c.main) {
+		if g == c.send {
+			continue
+		}
+		for _, s := range core.Sites(g, false) {
+			if s.Callee == c.once && s.Instr.Parent() == g {
+				r.Undecided(consA, s.Pos(), "the batch sender is called from outside the retry wrapper")
+				return
+			}
+		}
+	}
+	hyp := func(v ssa.Value) (bool, bool) {
+		if isClusterVal(v) {
+			return true, true
+		}
+		if isPipeVal(v) {
+			return false, true
+		}
+		return false, false
+	}
+	bad := ""
+	var badPos token.Pos = c.send.Pos()
+	attemptsSeen, alone := 0, 0
+	okEnum := core.EnumPathsN(c.send.Blocks[0], 0, 200000, 3, func(p *core.Path) {
+		if bad != "" {
+			return
+		}
+		var attempts []*ssa.Call
+		for _, in := range p.Instrs {
+			if ci, ok := in.(*ssa.Call); ok && core.ResolveCall(ci).Callee == c.once {
+				attempts = append(attempts, ci)
+			}
+		}
+		// the path as a whole has ruled the hypothesis out?
+		ruledOut := false
+		for _, f := range p.Conds {
+			cv := p.Resolve(f.Cond)
+			if !f.Val && isClusterVal(cv) {
+				ruledOut = true
+			}
+			if f.Val && isPipeVal(cv) {
+				ruledOut = true
+			}
+			// a flag the path resolved to one of the two (`x := a && cluster()` branched on as x)
+			if f.Res != nil {
+				if !f.Val && isClusterVal(f.Res) {
+					ruledOut = true
+				}
+				if f.Val && isPipeVal(f.Res) {
+					ruledOut = true
+				}
+			}
+		}
+		if ruledOut {
+			return
+		}
+		dataOnly := make([]bool, len(attempts))
+		for k, at := range attempts {
+			attemptsSeen++
+			args, ok := c.flushArgsAt(core.ResolveCall(at))
+			if !ok {
+				bad, badPos = "UNDECIDED: the arguments of an attempt could not be read", at.Pos()
+				return
+			}
+			if b, known := evalHyp(p, args[1], hyp, 0); known && !b {
+				dataOnly[k] = true
+				continue
+			}
+			okPrev := false
+			if k > 0 && dataOnly[k-1] {
+				for _, f := range factsBetween(p, attempts[k-1], at) {
+					cm, isCmp := core.FactCmp(f)
+					if !isCmp || cm.Op != token.EQL {
+						continue
+					}
+					x, y := p.Resolve(cm.X), p.Resolve(cm.Y)
+					if core.IsNilConst(x) {
+						x, y = y, x
+					}
+					if core.IsNilConst(y) && core.Unwrap(x) == ssa.Value(attempts[k-1]) {
+						okPrev = true
+					}
+				}
+			}
+			if okPrev {
+				alone++
+				continue
+			}
+			if os.Getenv("GC_DEBUG") == "R19.20" {
+				fmt.Fprintf(os.Stderr, "DEBUG attempt %d/%d arg=%v resolved=%v pipeCell=%v\n", k, len(attempts), args[1], p.Resolve(args[1]), pipeCell)
+				for _, f := range p.Conds {
+					fmt.Fprintf(os.Stderr, "DEBUG   %v := %v -> %v (res %v)\n", f.Val, f.Cond, p.Resolve(f.Cond), f.Res)
+				}
+			}
+			bad, badPos = "an attempt of the retry wrapper may carry the checkpoint together with the queued commands on a path that has not ruled out a cluster target (synchronous mode) and does not directly follow a successful attempt without checkpoint: a cluster batcher sends neither MULTI nor EXEC, so the batch is a plain pipeline, and a node that refuses one command (MOVED, ASK, OOM ...) still executes the commands behind it, `hset <checkpoint> <runid>_offset N` included; the restart that is reported then resumes behind the refused command, which no node executes in any run", at.Pos()
+			return
+		}
+	})
+	if !okEnum {
+		r.Undecided(consA, c.send.Pos(), "too many paths through the retry wrapper")
+		return
+	}
+	if strings.HasPrefix(bad, "UNDECIDED: ") {
+		r.Undecided(consA, badPos, "%s", strings.TrimPrefix(bad, "UNDECIDED: "))
+		return
+	}
+	r.Check(bad == "" && attemptsSeen > 0, consA, badPos, "%s (attempts on enumerated cluster paths=%d, of them checkpoint batches of their own=%d)", bad, attemptsSeen, alone)
 }
